@@ -5,6 +5,8 @@
 //!          middleware; the body of the answer is polled chunk by chunk
 //!   wire : the same handler + Compress behind a real HTTP/1 connection (scripted socket); the oracle
 //!          parses the raw response bytes (framing vs. Content-Length, decoded body); no model
+//!   h2   : the same behind a real HTTP/2 connection (h2 client over an in-memory pipe); oracle on the
+//!          response head and the DATA received; no model
 //!   dec  : a request body through the real `actix_http::encoding::Decoder`
 //!   neg  : `AcceptEncoding::negotiate` / `ranked` alone (volume for the negotiation rules)
 //!   law  : the codec laws assumed by the Coq theorems, TESTED on flate2 / brotli / zstd directly
@@ -103,6 +105,11 @@ struct Case {
     /// (`HttpResponseBuilder::no_chunking(len)`: Content-Length header + NO_CHUNKING flag)
     #[serde(default)]
     no_chunking: bool,
+    /// wire: how the request is sent: "" (plain GET, connection: close) | "upgrade" (GET with
+    /// Connection: upgrade / Upgrade: websocket) | "connect" (CONNECT): the two latter put the h1
+    /// codec into STREAM mode
+    #[serde(default)]
+    req_mode: String,
 }
 
 fn runs(len: usize, seed: u64) -> Vec<u8> {
@@ -818,12 +825,20 @@ async fn run_wire(c: &Case) -> CaseOut {
         |_| actix_web::dev::AppConfig::default(),
     );
     let mut conn = Conn::start(ConnCfg::default(), io.clone(), factory).await;
-    let mut req = String::from("GET / HTTP/1.1\r\nhost: localhost\r\nconnection: close\r\n");
+    let mut req = String::from(match c.req_mode.as_str() {
+        "upgrade" => "GET / HTTP/1.1\r\nhost: localhost\r\nconnection: upgrade\r\nupgrade: websocket\r\n",
+        "connect" => "CONNECT localhost:80 HTTP/1.1\r\nhost: localhost\r\n",
+        _ => "GET / HTTP/1.1\r\nhost: localhost\r\nconnection: close\r\n",
+    });
     if let Some(ae) = &c.ae {
         req.push_str(&format!("accept-encoding: {ae}\r\n"));
     }
     req.push_str("\r\n");
     io.push_read(req.as_bytes());
+    if !c.req_mode.is_empty() {
+        // the client of a refused upgrade / CONNECT sends nothing more
+        io.close_read();
+    }
     let mut outcome = ConnPoll::Pending;
     for _ in 0..200_000 {
         outcome = conn.poll();
@@ -905,16 +920,160 @@ async fn run_wire(c: &Case) -> CaseOut {
         impl_show: show,
         oracle_ok: why.is_empty(),
         oracle_why: why,
+        known_class: stale_length_class(c),
         nontrivial: !label.is_empty(),
         tags: vec![
             "kind:wire".into(),
             format!("framing:{framing}"),
+            format!("request:{}", if c.req_mode.is_empty() { "plain" } else { &c.req_mode }),
             format!("coding:{}", if label.is_empty() { "none" } else { &label }),
             format!("announced-length:{}", c.no_chunking),
             format!("body:{}", c.body_type),
             format!("sched:{}", if c.pend { "pending" } else { "ready" }),
         ],
         ..Default::default()
+    }
+}
+
+
+// ---------------------------------------------------------------------------------------- h2 case
+
+/// the same handler + Compress behind a real HTTP/2 connection (h2 client over an in-memory
+/// duplex pipe, as in c08.rs); the oracle looks at the response head and the DATA the client gets
+async fn run_h2(c: &Case) -> CaseOut {
+    use actix_http::HttpService;
+    use actix_service::{Service as _, ServiceFactory as _};
+    let (body, chunks) = body_chunks(c);
+    let after_end = Rc::new(RefCell::new(0usize));
+    let (c2, chunks2, body2, after2) = (c.clone(), chunks.clone(), body.clone(), after_end.clone());
+    let (cio, sio) = tokio::io::duplex(1 << 16);
+    let factory = HttpService::build().h2(actix_service::map_config(
+        App::new().wrap(Compress::default()).default_service(web::to(move || {
+            let (c, chunks, body, after) = (c2.clone(), chunks2.clone(), body2.clone(), after2.clone());
+            async move { handler_response(&c, body, chunks, after) }
+        })),
+        |_| actix_web::dev::AppConfig::default(),
+    ));
+    let svc = factory.new_service(()).await.expect("service");
+    tokio::task::yield_now().await;
+    let conn = svc.call((sio, None));
+    let server = actix_rt::spawn(async move {
+        let _ = conn.await;
+    });
+    let mut status = 0u16;
+    let mut cl: Vec<String> = vec![];
+    let mut ce: Vec<String> = vec![];
+    let mut data: Vec<u8> = vec![];
+    let mut end = String::from("no response");
+    if let Ok((sr, connection)) = h2::client::handshake(cio).await {
+        let client = actix_rt::spawn(async move {
+            let _ = connection.await;
+        });
+        if let Ok(mut sr) = sr.ready().await {
+            let mut rb = http::Request::builder().method(http::Method::GET).uri("http://localhost/");
+            if let Some(ae) = &c.ae {
+                rb = rb.header("accept-encoding", ae.as_str());
+            }
+            match sr.send_request(rb.body(()).unwrap(), true) {
+                Err(e) => end = format!("send: {e}"),
+                Ok((resp, _)) => match resp.await {
+                    Err(e) => end = format!("head: {e}"),
+                    Ok(r) => {
+                        let (parts, mut rbody) = r.into_parts();
+                        status = parts.status.as_u16();
+                        let vals = |n: &str| parts.headers.get_all(n).iter().map(|v| String::from_utf8_lossy(v.as_bytes()).to_string()).collect::<Vec<_>>();
+                        cl = vals("content-length");
+                        ce = vals("content-encoding");
+                        end = "end".into();
+                        while let Some(item) = rbody.data().await {
+                            match item {
+                                Ok(b) => {
+                                    let _ = rbody.flow_control().release_capacity(b.len());
+                                    data.extend_from_slice(&b);
+                                }
+                                Err(e) => {
+                                    end = format!("data: {e}");
+                                    break;
+                                }
+                            }
+                        }
+                    }
+                },
+            }
+        }
+        client.abort();
+    }
+    server.abort();
+
+    let mut why = String::new();
+    let mut fail = |m: String| {
+        if why.is_empty() {
+            why = m;
+        }
+    };
+    let label = ce.first().cloned().unwrap_or_default();
+    if status == 0 {
+        fail(format!("no response head: {end}"));
+    } else if status != 406 {
+        if cl.len() > 1 || ce.len() > 1 {
+            fail("duplicate length / coding headers".into());
+        }
+        if let Some(l) = cl.first() {
+            if l.parse::<usize>().ok() != Some(data.len()) || end != "end" {
+                fail(format!("content-length {l} announced, {} DATA bytes received, stream end: {end} (handler body: {} bytes)", data.len(), body.len()));
+            }
+        }
+        if end != "end" {
+            fail(format!("response stream failed: {end}"));
+        }
+        let coding = if label.is_empty() || c.ce.is_some() { "identity" } else { label.as_str() };
+        match whole_decode(coding, &data) {
+            Ok(d) if d == body => {}
+            Ok(d) => fail(format!("DATA decodes ({coding}) to {} bytes, handler body has {}", d.len(), body.len())),
+            Err(e) => fail(format!("DATA does not decode with {coding}: {e}")),
+        }
+    }
+    let show = format!("{status} ce={ce:?} cl={cl:?} data={} end={end}", data.len());
+    CaseOut {
+        sig: format!("h2|{show}"),
+        impl_show: show,
+        oracle_ok: why.is_empty(),
+        oracle_why: why,
+        known_class: stale_length_class(c),
+        nontrivial: !label.is_empty(),
+        tags: vec![
+            "kind:h2".into(),
+            format!("coding:{}", if label.is_empty() { "none" } else { &label }),
+            format!("announced-length:{}", c.no_chunking),
+            format!("body:{}", c.body_type),
+        ],
+        ..Default::default()
+    }
+}
+
+/// will `Compress` encode the answer of this case?  Decided from the case alone (own header parser):
+/// some supported coding other than identity is listed explicitly with q > 0, the content type is
+/// one the middleware compresses, nothing forbids encoding, and there is a body.
+fn will_encode(c: &Case) -> bool {
+    let listed = c.ae.as_ref().and_then(|raw| parse_ae(raw)).map_or(false, |e| {
+        ["gzip", "deflate", "br", "zstd"].iter().any(|cod| e.iter().filter(|x| x.0 == *cod).map(|x| x.1).max().map_or(false, |q| q > 0))
+    });
+    listed
+        && compressible(&c.ctype)
+        && c.ce.is_none()
+        && !matches!(c.status, 101 | 204 | 206)
+        && c.body_type != "none"
+        && (c.body_type == "stream" || c.body.len > 0)
+}
+/// classes of the known finding "handler-announced length survives compression" (predicates on the case)
+fn stale_length_class(c: &Case) -> String {
+    if !(c.no_chunking && will_encode(c)) {
+        return String::new();
+    }
+    match (c.kind.as_str(), c.req_mode.as_str()) {
+        ("h2", _) => "stale-length-h2".into(),
+        ("wire", "upgrade") | ("wire", "connect") => "stale-length-h1-stream-request".into(),
+        _ => String::new(),
     }
 }
 
@@ -1243,6 +1402,13 @@ fn gen_case(rng: &mut Rng, thorough: bool) -> Case {
             if rng.chance(1, 4) && !matches!(c.status, 101 | 204 | 206) && c.ae.as_ref().map_or(true, |a| parse_ae(a).is_some() && !a.trim().is_empty()) {
                 c.kind = "wire".into();
                 c.no_chunking = rng.chance(1, 2);
+                // CONNECT / upgrade requests put the h1 codec into STREAM mode; HTTP/2 has no chunking
+                match rng.below(6) {
+                    0 => c.req_mode = "upgrade".into(),
+                    1 => c.req_mode = "connect".into(),
+                    2 | 3 => c.kind = "h2".into(),
+                    _ => {}
+                }
             }
         }
         4 | 5 => {
@@ -1285,6 +1451,7 @@ fn emit_case(em: &mut Emitter, id: String, c: Case) {
                 match c2.kind.as_str() {
                     "resp" => run_resp(&c2).await,
                     "wire" => run_wire(&c2).await,
+                    "h2" => run_h2(&c2).await,
                     "dec" => run_dec(&c2).await,
                     "neg" => run_neg(&c2),
                     _ => run_law(&c2),
